@@ -1,5 +1,7 @@
 use crate::engine::Engine;
 use crate::goal::{AnyGoal, Goal};
+#[cfg(feature = "clpfd")]
+use crate::compound::CompoundObject;
 use crate::lterm::{LTerm, LTermInner};
 use crate::stream::Stream;
 use crate::user::User;
@@ -8,6 +10,20 @@ use crate::user::User;
 use crate::operator::onceo;
 
 use crate::state::map_sum::map_sum;
+
+/// Collects the terms in the fields of a compound object, nested objects included.
+#[cfg(feature = "clpfd")]
+fn compound_fields<U: User, E: Engine<U>>(
+    compound: &dyn CompoundObject<U, E>,
+    fields: &mut Vec<LTerm<U, E>>,
+) {
+    for child in compound.children() {
+        match child.as_term() {
+            Some(v) => fields.push(v.clone()),
+            None => compound_fields(child, fields),
+        }
+    }
+}
 
 /// Enforces the finite domain constraints by expanding the domains into sequences of numbers,
 /// and returning solutions for all numbers. Adds a `x == d` substitution for each `d` in
@@ -40,6 +56,12 @@ fn force_ans<U: User, E: Engine<U>>(x: LTerm<U, E>) -> Goal<U, E> {
                     force_ans(tail),
                 ]);
                 g.solve(solver, state)
+            },
+            (LTermInner::<U, E>::Compound(compound), _) => {
+                // The fields of a compound term are labeled like the elements of a list
+                let mut fields = vec![];
+                compound_fields(compound.as_ref(), &mut fields);
+                force_ans(LTerm::from_vec(fields)).solve(solver, state)
             },
             (_, _) => solver.start(&Goal::Succeed, state),
         }
